@@ -15,6 +15,7 @@ RULE = (
     'arguments), objective evaluated on the model or on a deep copy with moved hyper-parameters, objective in {mll, loo, sum_mll}, path in '
     '{cholesky, default, cg+slq (statistical, K repetitions)}, seed); distinct = cell without seed; non-trivial iff n>=2 and at least one '
     'gradient component is > 1e-6'
+    '; pass 5: the objective called with a call-time noise= keyword (fixed-noise likelihoods); registered added loss terms on a direct child, the kernel, ModuleList and ModuleDict members; gradient tolerance follows cond(K+S)'
 )
 REQUIRED = ["mll_value", "mll_grad", "added_terms_enumerated", "loo_value", "priors_enumerated", "sum_mll_is_mean", "mll_value_stochastic"]
 ASSUMPTIONS = [
